@@ -152,3 +152,82 @@ def check_c05(prop, tier, seed):
     finally:
         common.rmtree(scratch)
     return rep.finish()
+
+
+def c06_matrix(seed, tier):
+    s = seed
+    m = [dict(kind='gauss', n_batch=4, n_live=20, seed=51 + s, mseed=s, n_like_max=72, resume_budget=88,
+              runkw=dict(n_eff=25, discard_exploration=True)),
+         dict(kind='two', n_batch=5, n_live=20, n_networks=1, blob='multi', periodic=[0], seed=52 + s, mseed=s,
+              n_like_max=150, resume_budget=170, n_update=20, runkw=dict(n_eff=40, discard_exploration=False))]
+    if tier == 'thorough':
+        m += [dict(kind='plateau', n_batch=4, n_live=20, blob='float', seed=53 + s, mseed=s, n_like_max=400,
+                   resume_budget=420, runkw=dict(n_eff=60, discard_exploration=True)),
+              dict(kind='wrap', n_batch=6, n_live=24, blob='array', periodic=[0], n_networks=1, seed=54 + s, mseed=s,
+                   n_like_max=300, resume_budget=330, runkw=dict(n_eff=50, discard_exploration=True, n_shell=12))]
+    return m
+
+
+def check_c06(prop, tier, seed):
+    from . import kill
+    rep = common.Report(prop, tier, seed, level='model_checking')
+    scratch = common.scratch('c06_')
+    try:
+        model_check_checkpoint(rep, tier, scratch, want=('tr3', 'trreal', 'ip3'))
+        rnd = random.Random(seed)
+        n_kills = 0
+        for ci, cfg in enumerate(c06_matrix(seed, tier)):
+            d = os.path.join(scratch, 'cfg%d' % ci)
+            snaps, events = kill.reference(cfg, d)
+            key = _key(cfg)
+            digs = [x['digest'] for x in snaps]
+            kinds = [x['kind'] for x in snaps]
+            fails, mainstays, res = kill.validate_io(events, d)
+            rep.add_tlc(res, 'CheckpointIO.tla/trace cfg%d' % ci)
+            n_sys = len(events)
+            # kill points: every call in the thorough tier; strided + all protocol-relevant calls in the quick tier
+            if tier == 'thorough':
+                ks = list(range(1, n_sys + 1))
+            else:
+                stride = max(1, n_sys // 20)
+                ks = set(range(1 + rnd.randrange(stride), n_sys + 1, stride))
+                proto = [e['n'] for e in events
+                         if e['ev'] in ('rename', 'unlink') or (e['ev'] == 'open' and e['mode'] != 'ro')]
+                for n in proto[:6] + rnd.sample(proto, min(8, len(proto))):
+                    ks.update({n, n + 1})
+                ks = sorted(k for k in ks if 1 <= k <= n_sys)
+            suspicious = sorted(set(n for _, _, n in fails))
+            for n in suspicious[:40]:
+                ks = sorted(set(ks) | {n, n + 1})
+            outs = common.pmap(kill.kill_at, [(cfg, d, n, digs, tier == 'thorough' or i % 3 == 0) for i, n in enumerate(ks)])
+            n_kills += len([o for o in outs if o['killed']])
+            bad = [o for o in outs if o['problem']]
+            if bad:
+                o = bad[0]
+                rep.violation('%s:kill-leaves-%s' % (key, o['problem']),
+                              'kill at system call %d of %d on the checkpoint paths: %s (%d such kill points of %d tried) [config %s]' % (
+                                  o['n'], n_sys, o['detail'], len(bad), len(outs), json.dumps(cfg)),
+                              dict(cfg=cfg, kill_at=o['n'], all_bad=[b['n'] for b in bad][:50],
+                                   event=[e for e in events if e['n'] == o['n']]))
+            if fails or mainstays:
+                what = 'step %s %s' % (fails[0][2], fails[0][1]) if fails else 'MainStays violated'
+                if bad:
+                    rep.info('strace log rejected by CheckpointIO.tla (%s) and confirmed by kills' % what)
+                else:
+                    rep.divergence('clause=%s config=%s: protocol differs from TmpRename but every kill tried left a '
+                                   'complete snapshot' % (what, key))
+            else:
+                rep.coverage['traces_validated_against_impl'] += 1
+            rep.coverage['transitions'] += n_sys
+            rep.sample(dict(config=cfg, checkpoints=len(snaps), kinds=kinds[:12], syscalls=n_sys,
+                            kill_points=ks[:20], first_events=[(e['sc'], e['file'], e['mode']) for e in events[:6]]),
+                       cap=3)
+            common.rmtree(d)
+        rep.coverage['kills_performed'] = n_kills
+        rep.coverage['exhaustive'] = tier == 'thorough'
+        rep.assumptions += ['a kill is modelled as SIGKILL delivered at a system call on the checkpoint paths '
+                            '(process death; no power loss, so no fsync ordering is required)',
+                            'h5py is trusted as a reader of the file left behind']
+    finally:
+        common.rmtree(scratch)
+    return rep.finish()
